@@ -178,6 +178,20 @@ CLAIMED['C08'] = dict(
     note=NOTE_COMMON + 'malloc/memcpy of the generated C are modelled as functional updates.',
     technique='Lean 4 proof (refinement to an array / total map) + history correspondence on three simulators')
 
+CLAIMED['C15'] = dict(
+    text='Lean theorems over the three input-validation conditions regenerated from simulation.py/compilesim.py on every '
+         'run: Simulation, FastSimulation and CompiledSimulation each refuse exactly the values outside [0, 2^w), hence '
+         'agree; printed digits decode to the value in every base. Correspondence/oracle on generated designs x three '
+         'simulators: inspect() equals the last trace entry after every step, trace length equals the step count, '
+         'step_multiple equals stepping one at a time and reports exactly the mismatching expected outputs (with ? '
+         'entries), print_vcd (with/without clock) and print_trace (bases 2/8/10/16) are parsed back by an independent '
+         'decoder, rtl_assert raises on the first cycle its wire is 0 (the cycle computed by the Lean Spec model) and not '
+         'before, illegal values (-1, -2^w, 2^w, huge) are refused at widths 1..128. PARTIAL: the trace/report/VCD '
+         'writers are checked by decoding their real output, not modelled.',
+    design='4 C15',
+    note=NOTE_COMMON + 'Text layout of print_trace/print_vcd is decoded by the harness parser (trusted).',
+    technique='Lean 4 proof over translator-regenerated input checks + channel-agreement correspondence on three simulators')
+
 NOT_YET = {}
 
 
